@@ -19,7 +19,7 @@ TABLE = {
         'reason': 'the RUNE regex has two unconditional capture groups; captures() returned Some, so groups 1 and 2 participated in the match',
         'requires': [r"^discr\(Regex::captures\(.*input\)\) in \['1'\]$"]},
     ('<ord::representation::Representation as std::str::FromStr>::from_str', 'index',
-     'index(Iterator::next(IntoIterator::into_iter(RegexSet::matches(Deref::deref(tmp),input))).v:Some.0,PtrMetadata(PATTERNS))'): {
+     'index(Iterator::next(IntoIterator::into_iter(RegexSet::matches(Deref::deref(None),input))).v:Some.0,PtrMetadata(PATTERNS))'): {
         'reason': 'REGEX_SET is built from PATTERNS element by element (same length); SetMatches yields pattern indices < the set length',
         'requires': [r"^discr\(Iterator::next\(.*RegexSet::matches.*\)\) in \['1'\]$"]},
     (PCT, 'arith', 'Sub(str::len(percentile),1)'): {
